@@ -23,6 +23,9 @@ def check(run):
         index = indices[k % len(indices)]
         mid = rng.choice([0, limit - 1])
         ext = rng.choice([0, 1, P - 1, rand_fr(rng)])
+        if k % 4 == 3:
+            from lib import gen as _gen
+            ext = rng.choice(_gen.NEAR_MODULUS)        # canonical values just below p at limb granularity (the verifier's canonicity check must pass them)
         signal = bytes(rng.getrandbits(8) for _ in range(rng.choice([0, 1, 136, 10000 if not quick else 1000])))
         M = rlngen.Member(zkh, secret, limit, index)
         others = [(rng.randrange(CAP), rand_fr(rng)) for _ in range(rng.randint(0, 4))]
@@ -72,6 +75,8 @@ def check(run):
         M = rlngen.Member(zkh, secret, limit, index)
         others = [(i, rand_fr(rng)) for i in range(0, 12) if i != index]
         seq = M.setup(others)
+        if k % 2:
+            seq[0] = "rln new_params"        # an instance built from caller-supplied key and graph bytes behaves like the default one
         ext, signal = rand_fr(rng), bytes(rng.getrandbits(8) for _ in range(5))
         muts = [f"rln atomic 0x0 - 0x1,0x2", f"rln atomic 0x0 - 0x3", f"rln set_leaf 0x1 {hex(rand_fr(rng))}", f"rln delete 0x2",
                 f"rln set_next {hex(rand_fr(rng))}", f"rln set_leaves_from 0xc {hex(rand_fr(rng))},{hex(rand_fr(rng))}",
